@@ -4,7 +4,7 @@
     error kind - for every word size, radix, magnitude and text.  An edited threshold, comparison, swapped
     branch, or a changed split / loop condition in the Rust source changes the generated definitions and
     breaks these proofs. *)
-From Dashu Require Import Base.Prelude Base.Words Int.IoSpec Int.IoModel Int.IoBytes Int.IoPow2 Int.IoDispatch4Model.
+From Dashu Require Import Base.Prelude Base.Words Int.IoSpec Int.IoModel Int.IoBytes Int.IoPow2 Int.IoLayout Int.IoDispatch4Model.
 From DashuGen Require Import Params IoDispatch4.
 Open Scope Z_scope.
 
@@ -113,6 +113,30 @@ Proof.
 Qed.
 
 End D.
+
+(** InRadixWriter::format_prepared as regenerated (symbolic run of the output statements) is the hand transcription, hence
+    Rust's pad_integral for every flag combination *)
+Theorem format_prepared_gen_eq f neg prefix digits :
+  format_prepared_gen f neg prefix digits = format_prepared_asis f neg prefix digits.
+Proof.
+  unfold format_prepared_gen, format_prepared_asis, gen4_layout.
+  change g4_len with (@len Z). change g4_rep with rep. cbv zeta.
+  set (sg := if neg then [45] else if f_plus f then [43] else []).
+  set (width := len digits + (len sg + len prefix)).
+  destruct (f_width f) as [mw|]; [|reflexivity].
+  destruct (width >=? mw); [reflexivity|].
+  (* the pad counts are compared by arithmetic, not by shape: a re-associated loop range stays green *)
+  destruct (f_zero f); [repeat (f_equal; try lia)|].
+  destruct (f_align f) as [[| |]|]; cbn [align_id Z.eqb Pos.eqb orb]; repeat (f_equal; try lia).
+Qed.
+
+Theorem format_prepared_gen_correct f neg prefix digits :
+  format_prepared_gen f neg (if f_alt f then prefix else []) digits = pad_integral_spec f (negb neg) prefix digits.
+Proof. rewrite format_prepared_gen_eq. apply format_prepared_correct. Qed.
+
+Example format_prepared_gen_ex :
+  format_prepared_gen (mkflags true true false (Some ACenter) (Some 9) [42]) false [48; 120] [49; 102] = [42; 42; 43; 48; 120; 49; 102; 42; 42].
+Proof. vm_compute. reflexivity. Qed.
 
 (** the converters through the regenerated dispatch print / parse the specification *)
 Theorem digits_gen_correct w r x : 0 < w -> w mod 2 = 0 -> 2 <= r -> r < Bw w -> 0 <= x -> digits_gen w r x = digits_spec r x.
